@@ -354,6 +354,110 @@ OUTPUT_COUNT_ATTRS = {"Split": "num_outputs"}
 N_VARIADIC_OUT = 2
 
 
+# ----------------------------------------------------------------------------- tensor values
+LAYOUTS = ["C", "T", "F", "strided", "negstride", "broadcast", "perm3", "bigendian", "0d", "empty", "sliced1d"]
+
+
+def layout_array(np, layout: str, dtype: str):
+    """An array with distinct logical contents in the given memory layout (the *logical* array is
+    what an attribute value means; how numpy stores it must not matter)."""
+    dt = np.dtype(dtype)
+    if dt.kind == "U":
+        base = np.array([["a", "bb", "c"], ["dd", "e", "ff"]])
+        flat24 = np.array([f"s{i}" for i in range(24)])
+    elif dt.kind == "b":
+        base = np.array([[True, False, False], [False, True, True]])
+        flat24 = (np.arange(24) % 3 == 0)
+    else:
+        base = (np.arange(6).reshape(2, 3) + 1).astype(dt)
+        flat24 = (np.arange(24) + 1).astype(dt)
+    if layout == "C":
+        return np.ascontiguousarray(base)
+    if layout == "T":
+        return base.T
+    if layout == "F":
+        return np.asfortranarray(base)
+    if layout == "strided":
+        return flat24.reshape(4, 6)[::2, ::2]
+    if layout == "negstride":
+        return base[::-1, ::-1]
+    if layout == "broadcast":
+        return np.broadcast_to(base[0], (2, 3))
+    if layout == "perm3":
+        return flat24.reshape(2, 3, 4).transpose(2, 0, 1)
+    if layout == "bigendian":
+        return base.astype(dt.newbyteorder(">")) if dt.kind in "iuf" and dt.itemsize > 1 else base.T
+    if layout == "0d":
+        return base[1, 2].reshape(())
+    if layout == "empty":
+        return base[:0].T
+    if layout == "sliced1d":
+        return flat24[3:20:4]
+    raise ValueError(layout)
+
+
+def decode_tensor(np, onnx, tp):
+    """TensorProto -> logical numpy array, decoded from dims + data fields directly (row-major, as
+    the ONNX spec defines), independently of spox and of onnx.numpy_helper."""
+    TP = onnx.TensorProto
+    dims = tuple(tp.dims)
+    n = 1
+    for d in dims:
+        n *= d
+    simple = {TP.FLOAT: ("float_data", "<f4"), TP.DOUBLE: ("double_data", "<f8"), TP.INT64: ("int64_data", "<i8"),
+              TP.UINT64: ("uint64_data", "<u8"), TP.UINT32: ("uint64_data", "<u4"), TP.INT32: ("int32_data", "<i4"),
+              TP.INT16: ("int32_data", "<i2"), TP.INT8: ("int32_data", "<i1"), TP.UINT16: ("int32_data", "<u2"),
+              TP.UINT8: ("int32_data", "<u1"), TP.BOOL: ("int32_data", "?")}
+    if tp.data_type == TP.STRING:
+        vals = [s.decode("utf-8") for s in tp.string_data]
+        if len(vals) != n:
+            raise ValueError(f"{len(vals)} strings for dims {dims}")
+        return np.array(vals, dtype=str).reshape(dims) if n else np.zeros(dims, dtype=str)
+    if tp.data_type not in simple:
+        return onnx.numpy_helper.to_array(tp)
+    field, dt = simple[tp.data_type]
+    if tp.raw_data:
+        arr = np.frombuffer(tp.raw_data, dtype=np.dtype(dt))
+    else:
+        arr = np.array(list(getattr(tp, field))).astype(np.dtype(dt)) if n else np.zeros(0, np.dtype(dt))
+    if arr.size != n:
+        raise ValueError(f"{arr.size} elements for dims {dims}")
+    return arr.reshape(dims)
+
+
+def same_logical(np, got, want) -> bool:
+    """same dims, same element type (byte order and string width aside), same contents"""
+    if tuple(got.shape) != tuple(want.shape):
+        return False
+    if want.dtype.kind in "US" or got.dtype.kind in "US":
+        return got.dtype.kind in "US" and want.dtype.kind in "US" and got.astype(str).tolist() == want.astype(str).tolist()
+    if got.dtype.newbyteorder("=") != want.dtype.newbyteorder("="):
+        return False
+    return bool(np.array_equal(got, want))
+
+
+FORMS = ["empty-list", "empty-tuple", "empty-gen", "tuple", "gen", "ndarray"]
+
+
+def as_form(np, v, form):
+    """the same list value, handed over as another kind of iterable"""
+    if form is None or not isinstance(v, list):
+        return v
+    if form == "empty-list":
+        return []
+    if form == "empty-tuple":
+        return ()
+    if form == "empty-gen":
+        return (x for x in [])
+    if form == "tuple":
+        return tuple(v)
+    if form == "gen":
+        return (x for x in list(v))
+    if form == "ndarray":
+        return np.array(v) if v and not isinstance(v[0], str) else tuple(v)
+    return v
+
+
 def slot_names(schema, case):
     """sentinel names of the present input slots, in schema order (one per positional slot)"""
     out = []
@@ -447,6 +551,20 @@ def gen_cases(schema, rng, budget_extra: int, all_attr_subsets_upto: int = 3):
             "mode": rng.choice(["kw", "pos"]),
             "variant": rng.randrange(2),
         })
+    # tensor-valued attributes in every memory layout; list-valued ones as every kind of iterable
+    k = 0
+    for a in attrs:
+        T = schema.attributes[a].type.name
+        if T == "TENSOR":
+            for L in LAYOUTS:
+                for dt in (("float32", "int64", "<U2", "bool", "float64", "uint8")[k % 6], "float32" if k % 2 else "int64"):
+                    cases.append({"present": sorted(full), "variadic": var_counts[-1],
+                                  "attrs": sorted(set(required_attrs) | {a}), "mode": "kw", "layout": {a: [L, dt]}})
+                k += 1
+        elif T in ("INTS", "FLOATS", "STRINGS"):
+            for form in FORMS:
+                cases.append({"present": sorted(full), "variadic": var_counts[-1],
+                              "attrs": sorted(set(required_attrs) | {a}), "mode": "kw", "forms": {a: form}})
     # the same Var in several slots (emission must depend on positions, not on argument identity):
     # every presence pattern x {all slots, first = last non-empty, early pair, last pair, alternate, random}
     k = 0
@@ -461,7 +579,7 @@ def gen_cases(schema, rng, budget_extra: int, all_attr_subsets_upto: int = 3):
     seen, out = set(), []
     for c in cases:
         key = (tuple(c["present"]), c["variadic"], tuple(c["attrs"]), c["mode"], c.get("variant", 0),
-               repr(c.get("same")))
+               repr(c.get("same")), repr(c.get("layout")), repr(c.get("forms")))
         if key not in seen:
             seen.add(key)
             out.append(c)
@@ -546,11 +664,18 @@ def run_case1(env: Env, fn, schema, case, prefer_seq):
     for a in attrs:
         sa = schema.attributes[a]
         given[a] = (lambda *xs: list(cb_vars)) if sa.type.name == "GRAPH" else test_value(env, sa, case.get("variant", 0))
+        if a in (case.get("layout") or {}):
+            given[a] = layout_array(np, *case["layout"][a])
+        if (case.get("forms") or {}).get(a, "").startswith("empty"):
+            given[a] = []
     if count_attr in given:
         given[count_attr] = N_VARIADIC_OUT
     extra = {}
 
+    forms = case.get("forms") or {}
+
     def call(kw):
+        kw = {a_: as_form(np, v_, forms.get(a_)) for a_, v_ in kw.items()}  # fresh iterables per attempt
         with env.no_inference():
             if case["mode"] == "pos":
                 pos = [args[f.name] for f in schema.inputs]
@@ -648,8 +773,7 @@ def attr_value_matches(env: Env, ap, sa, value, key) -> bool:
         if T == "STRINGS":
             return ap.type == AP.STRINGS and [s.decode() for s in ap.strings] == list(value)
         if T == "TENSOR":
-            arr = onnx.numpy_helper.to_array(ap.t)
-            return ap.type == AP.TENSOR and arr.dtype == value.dtype and np.array_equal(arr, value)
+            return ap.type == AP.TENSOR and same_logical(np, decode_tensor(np, onnx, ap.t), np.asarray(value))
         if T == "TYPE_PROTO":
             return ap.type == AP.TYPE_PROTO and ap.tp == onnx.helper.make_tensor_type_proto(onnx.TensorProto.FLOAT, (2,))
         if T == "GRAPH":
@@ -970,6 +1094,62 @@ def public_oracle(ck, env: Env, stats):
                         ck.failure(k, what, {"module": mid, "op": op, "kind": "public", "case": case})
 
 
+def public_tensor_oracle(ck, env: Env, stats):
+    """`constant(value=arr)` / `const(arr)` / `constant_of_shape(value=arr)` through the public API for
+    every memory layout: the TensorProto in the built model is decoded independently and must hold the
+    logical contents of `arr`; the reference evaluator must return `arr`."""
+    from translator.constructors import MODULES
+
+    np, onnx = env.np, env.onnx
+    for mid, rel, domain, version, pymod in MODULES:
+        if domain != "":
+            continue
+        try:
+            mod = env.module(pymod)
+        except Exception:  # noqa: BLE001 - reported by public_oracle
+            continue
+        for li, L in enumerate(LAYOUTS):
+            for dt in ("float32", "int64", "<U2", "bool", "float64", "uint8", "int32")[li % 3::3]:
+                for how in ("constant", "const"):
+                    case = {"present": [], "variadic": None, "attrs": ["value"], "mode": "kw",
+                            "layout": {"value": [L, dt]}, "how": how, "public": True}
+                    try:
+                        arr = layout_array(np, L, dt)
+                        want = np.array(arr.tolist(), dtype=arr.dtype.newbyteorder("=")).reshape(arr.shape)
+                        with warnings.catch_warnings():
+                            warnings.simplefilter("ignore")
+                            try:
+                                c = mod.constant(value=arr) if how == "constant" else mod.const(arr)
+                                model = env.spox.build({}, {"y": c})
+                            except Exception as e:  # noqa: BLE001
+                                ck.failure(f"{mid}:Constant:call:raised", f"{how}({L} {dt} array) raised {type(e).__name__}: {str(e)[:150]}",
+                                           {"module": mid, "op": "Constant", "kind": "public-tensor", "case": case})
+                                continue
+                        nodes = [n for n in model.graph.node if n.op_type == "Constant"]
+                        got = None
+                        for n in nodes:
+                            for a in n.attribute:
+                                if a.name == "value":
+                                    got = decode_tensor(np, onnx, a.t)
+                        ok = got is not None and same_logical(np, got, want)
+                        ran = None
+                        if ok and want.dtype.kind != "U":
+                            import onnx.reference
+
+                            ran = onnx.reference.ReferenceEvaluator(model).run(None, {})[0]
+                            ok = same_logical(np, np.asarray(ran), want)
+                    except Exception as e:  # noqa: BLE001
+                        ck.broken("correspondence", f"public tensor oracle {mid} not observable", f"{type(e).__name__}: {e}")
+                        continue
+                    stats["public_tensor_cases"] = stats.get("public_tensor_cases", 0) + 1
+                    ck.count(("public-tensor", mid, L, dt, how))
+                    if not ok:
+                        ck.failure(f"{mid}:Constant:value:value",
+                                   f"{how}(value=<{L} layout, {dt}> {want.tolist()!r}) is emitted as "
+                                   f"{None if got is None else got.tolist()!r}" + ("" if ran is None else f", evaluates to {np.asarray(ran).tolist()!r}"),
+                                   {"module": mid, "op": "Constant", "kind": "public-tensor", "case": case})
+
+
 def import_verdict(env, mid, op, schema, r):
     """the built model imports the operator's domain at a version where this very schema is in force"""
     if r["status"] != "ok":
@@ -1141,7 +1321,7 @@ def internal_oracle(ck, env: Env, info, stats, extra):
                     cache[ckey] = runs
                 for case, r in cache[ckey]:
                     stats["calls"] += 1
-                    ck.count(("call", mid, op, tuple(case["present"]), case["variadic"], tuple(case["attrs"]), case["mode"], case.get("variant", 0), repr(case.get("same"))))
+                    ck.count(("call", mid, op, tuple(case["present"]), case["variadic"], tuple(case["attrs"]), case["mode"], case.get("variant", 0), repr(case.get("same")), repr(case.get("layout")), repr(case.get("forms"))))
                     for key, what in judge(env, mid, op, version, schema, case, r, cls):
                         ck.failure(key, what, {"module": mid, "op": op, "kind": "call", "case": case})
                     if r["status"] == "unobservable":
@@ -1157,6 +1337,8 @@ def internal_oracle(ck, env: Env, info, stats, extra):
                         stats["with_omitted_inner_optional"] += int("" in list(p.input))
                         stats["with_trimmed_trailing"] += int(len(p.input) < len(schema.inputs))
                         stats["attr_values_checked"] += len(r["given"])
+                        stats["tensor_layout_calls"] = stats.get("tensor_layout_calls", 0) + int(bool(case.get("layout")))
+                        stats["iterable_form_calls"] = stats.get("iterable_form_calls", 0) + int(bool(case.get("forms")))
                         stats["repeated_var_calls"] = stats.get("repeated_var_calls", 0) + int(bool(case.get("same")))
                         stats["dtype_attrs"] += len(r["dtype_attrs"])
                         stats["graph_attr_calls"] += int(any(sa.type.name == "GRAPH" for sa in schema.attributes.values()))
@@ -1224,6 +1406,10 @@ def run(ck: core.Check):
     # ---- model-free oracles: public API first (always runs), then the exhaustive internal one
     if env is not None:
         public_oracle(ck, env, stats)
+        try:
+            public_tensor_oracle(ck, env, stats)
+        except Exception as e:  # noqa: BLE001
+            ck.broken("correspondence", "public tensor oracle not observable", f"{type(e).__name__}: {e}")
     reqs, req_meta = [], []
     if env is not None:
         try:
@@ -1303,6 +1489,11 @@ def replay(ck: core.Check, doc) -> bool:
         if res is not None:
             verdicts += judge(env, mid, op, version, schema, res[0], res[1])
             verdicts += import_verdict(env, mid, op, schema, res[1])
+    if c.get("kind") == "public-tensor":
+        ck2 = core.Check("C11", "quick", 0)
+        ck2._findings = []
+        public_tensor_oracle(ck2, env, {})
+        verdicts += [(f["key"], f["what"]) for f in ck2.failures]
     if c.get("kind") == "call" and fn is not None:
         r = run_case(env, fn, schema, c["case"])
         verdicts += judge(env, mid, op, version, schema, c["case"], r, cls)
